@@ -149,7 +149,326 @@ Section Read2.
   Proof. destruct c as [k n p i f b s co pr]. destruct k; reflexivity. Qed.
 
   Lemma dispatch_strip c w :
-    dispatch (strip c) (fix_val fixed (c_prec c) w) = out_map strip (dispatch c w)
-    \/ False.
-  Proof. Abort.
+    dispatch (strip c) (fix_val fixed (c_prec c) w) = out_map strip (dispatch c w).
+  Proof.
+    destruct c as [k n p i f b s co pr]. destruct w; cbn [fix_val c_prec dispatch out_map].
+    - unfold col_int, strip. simpl. destruct p; reflexivity.
+    - unfold col_float, strip. simpl. destruct p; simpl; try reflexivity.
+      destruct (Nat.ltb 0 n); reflexivity.
+    - unfold col_bool, strip. simpl. destruct p; reflexivity.
+    - unfold col_string, strip. simpl. destruct p; simpl; try reflexivity.
+      destruct (Nat.ltb 0 n); reflexivity.
+    - unfold col_string, strip. simpl. destruct p; simpl; try reflexivity.
+      destruct (Nat.ltb 0 n); reflexivity.
+    - apply col_null_strip.
+    - reflexivity.
+  Qed.
+
+  (* one value: the scanner with coercion g and the column's precision, against the plain scanner
+     (no coercion, precision 0) fed with the prepared value *)
+  Lemma gen_scan_step g c c' v v' :
+    same_data c c' ->
+    (v = DNull /\ v' = DNull) \/ (v <> DNull /\ exists w, g v = Some w /\ v' = fix_val fixed (c_prec c) w) ->
+    match gen_scan g c v with
+    | Ok c1 => exists c1', col_scan c' v' = Ok c1' /\ same_data c1 c1'
+    | Fail => col_scan c' v' = Fail
+    | Panic => False
+    end.
+  Proof.
+    intros Hs Hv. apply same_data_strip in Hs. subst c'.
+    assert (Hcs : col_scan (strip c) v' = dispatch (strip c) v') by (apply col_scan_none; reflexivity).
+    rewrite Hcs.
+    assert (Hgen : dispatch (strip c) v' = out_map strip (gen_scan g c v)).
+    { destruct Hv as [[-> ->]|(Hnn & w & Hg & ->)].
+      - simpl. apply col_null_strip.
+      - rewrite dispatch_strip. f_equal. unfold gen_scan. rewrite Hg. destruct v; try reflexivity. congruence. }
+    rewrite Hgen. destruct (gen_scan g c v) as [c1| |] eqn:E; simpl; auto.
+    - exists (strip c1). split; auto. now apply same_data_strip.
+    - (* no Panic in the scanner *)
+      unfold gen_scan in E. destruct v; try (destruct (g _) as [w|]; [|discriminate]);
+        try (destruct w; try discriminate; unfold dispatch, col_null in E; destruct (c_kind c); discriminate).
+      unfold col_null in E. destruct (c_kind c); discriminate.
+  Qed.
+
+  Lemma col_null_prec c c1 : col_null c = Ok c1 -> c_prec c1 = c_prec c.
+  Proof. unfold col_null. destruct (c_kind c); intros H; inversion H; reflexivity. Qed.
+
+  Lemma dispatch_prec c w c1 : dispatch c w = Ok c1 -> c_prec c1 = c_prec c.
+  Proof.
+    destruct w; simpl; try discriminate; try apply col_null_prec; intros H; inversion H; subst; clear H.
+    - unfold col_int. destruct (is_pnil (c_ptr c)); reflexivity.
+    - unfold col_float. destruct (is_pnil (c_ptr c)); simpl; [destruct (Nat.ltb 0 (c_nulls c))|]; reflexivity.
+    - unfold col_bool. destruct (is_pnil (c_ptr c)); reflexivity.
+    - unfold col_string. destruct (is_pnil (c_ptr c)); simpl; [destruct (Nat.ltb 0 (c_nulls c))|]; reflexivity.
+    - unfold col_string. destruct (is_pnil (c_ptr c)); simpl; [destruct (Nat.ltb 0 (c_nulls c))|]; reflexivity.
+  Qed.
+
+  Lemma gen_scan_prec g c v c1 : gen_scan g c v = Ok c1 -> c_prec c1 = c_prec c.
+  Proof.
+    unfold gen_scan. destruct v; try apply col_null_prec;
+      (destruct (g _) as [w|]; [apply dispatch_prec|discriminate]).
+  Qed.
+
+  Lemma gen_scan_no_panic g c v : gen_scan g c v <> Panic.
+  Proof.
+    assert (Hn : col_null c <> Panic) by (unfold col_null; destruct (c_kind c); discriminate).
+    unfold gen_scan. destruct v; try exact Hn;
+      (destruct (g _) as [w|]; [|discriminate]; destruct w; simpl; try discriminate; exact Hn).
+  Qed.
+
+  Lemma gen_scan_strip g c v w :
+    prep_val g fixed (c_prec c) v = Some w ->
+    col_scan (strip c) w = out_map strip (gen_scan g c v).
+  Proof.
+    intros H. rewrite col_scan_none by reflexivity.
+    destruct v; simpl in H;
+      try (destruct (g _) as [u|] eqn:Eg; simpl in H; [|discriminate]; inversion H; subst; clear H;
+           rewrite dispatch_strip; unfold gen_scan; rewrite Eg; reflexivity).
+    inversion H; subst. simpl. apply col_null_strip.
+  Qed.
+
+  (* a whole column *)
+  Lemma scan_gen_strip g : forall vals vals' c,
+    prep g fixed (c_prec c) vals = Some vals' ->
+    scan_col (strip c) vals' = out_map strip (scan_gen g c vals).
+  Proof.
+    induction vals as [|v vs IH]; intros vals' c H.
+    - inversion H; subst. reflexivity.
+    - unfold prep in H. simpl in H. apply opt_all_cons_inv in H as (w & ws & Hw & Hws & ->).
+      cbn [SqlProofs.scan_col scan_gen]. rewrite (gen_scan_strip g c v w Hw).
+      destruct (gen_scan g c v) as [c1| |] eqn:E; simpl; auto.
+      apply IH. rewrite (gen_scan_prec _ _ _ _ E). exact Hws.
+  Qed.
+
+  (* a coercion error (or any other scan error) on the way: the scan reports an error *)
+  Lemma scan_gen_error g : forall vals c,
+    prep g fixed (c_prec c) vals = None -> scan_gen g c vals = Fail.
+  Proof.
+    induction vals as [|v vs IH]; intros c H; [discriminate|].
+    unfold prep in H. simpl in H. cbn [scan_gen].
+    destruct (gen_scan g c v) as [c1| |] eqn:E; simpl; auto.
+    - apply IH. rewrite (gen_scan_prec _ _ _ _ E).
+      destruct (prep_val g fixed (c_prec c) v) as [w|] eqn:Ew.
+      + unfold prep. destruct (opt_all (map (prep_val g fixed (c_prec c)) vs)); [discriminate|reflexivity].
+      + exfalso. unfold gen_scan in E. destruct v; simpl in Ew; try discriminate;
+          destruct (g _); discriminate.
+    - exfalso. eapply gen_scan_no_panic; eauto.
+  Qed.
+
+  (* the model's column loop is the generic one with the column's own coercion *)
+  Lemma scan_col_gen : forall vals c, scan_col c vals = scan_gen (g_co (c_coerce c)) c vals.
+  Proof.
+    induction vals as [|v vs IH]; intros c; [reflexivity|].
+    cbn [SqlProofs.scan_col scan_gen]. rewrite col_scan_gen.
+    destruct (gen_scan (g_co (c_coerce c)) c v) as [c1| |] eqn:E; simpl; auto.
+    rewrite IH. rewrite <- col_scan_gen in E. now rewrite (col_scan_coerce fixed pf _ _ _ E).
+  Qed.
+
+  Lemma col_data_strip c : col_data (strip c) = col_data c.
+  Proof. reflexivity. Qed.
+
+  (* C19_read_coerced at column level: the prepared values form a column of one SQL type ->
+     Data() of the scanned column is that column *)
+  Lemma scan_col_prep_spec vals vals' d prec co :
+    prep (g_co co) fixed prec vals = Some vals' -> spec_column vals' = Some d ->
+    exists c, scan_col (new_column prec co) vals = Ok c /\ col_data c = Some d
+              /\ coldata_len d = length vals.
+  Proof.
+    intros Hp Hs.
+    destruct (scan_col_spec fixed pf vals' d 0 ltac:(lia) Hs) as (c0 & Hc0 & Hd & Hl).
+    pose proof (scan_gen_strip (g_co co) vals vals' (new_column prec co) Hp) as H.
+    change (strip (new_column prec co)) with (new_column 0 None) in H. rewrite Hc0 in H.
+    rewrite scan_col_gen. cbn [c_coerce new_column].
+    destruct (scan_gen (g_co co) (new_column prec co) vals) as [c| |]; simpl in H; try discriminate.
+    inversion H; subst c0. exists c. split; [reflexivity|]. split; [exact Hd|].
+    rewrite Hl. unfold prep in Hp. apply opt_all_length in Hp. now rewrite map_length in Hp.
+  Qed.
+
+  Lemma scan_col_prep_error vals prec co :
+    prep (g_co co) fixed prec vals = None -> scan_col (new_column prec co) vals = Fail.
+  Proof. intros H. rewrite scan_col_gen. now apply scan_gen_error. Qed.
+
+  (* in particular: a non-NULL value on which the coercion reports an error *)
+  Lemma prep_error_at g prec vals v :
+    In v vals -> v <> DNull -> g v = None -> prep g fixed prec vals = None.
+  Proof.
+    intros Hin Hnn Hg. unfold prep. induction vals as [|x xs IH]; [contradiction|].
+    simpl. destruct Hin as [->|Hin].
+    - replace (prep_val g fixed prec v) with (@None dval); [reflexivity|].
+      destruct v; simpl; try (now rewrite Hg). congruence.
+    - destruct (prep_val g fixed prec x); [|reflexivity]. now rewrite IH.
+  Qed.
+
+  (* ================================================================ (c) the whole result set *)
+
+  (* the frame the property demands for a result set read with configuration conf: as IOCorr.spec_read,
+     the values of column j first going through the coercion configured for its name and float.Fixed *)
+  Definition spec_read_gen (conf : sql_config) (names : list bytes) (rows : list (list dval))
+    : option (list (bytes * coldata)) :=
+    if negb (forallb (fun r => Nat.eqb (length r) (length names)) rows) then None
+    else if negb (nodupb names && forallb check_name names) then None
+    else if Nat.eqb (length rows) 0 then None
+    else option_map (combine names)
+           (opt_all (map (fun j =>
+                            match prep (g_of conf (nth j names [])) fixed (q_precision conf) (column_vals rows j) with
+                            | Some vals' => spec_column vals'
+                            | None => None
+                            end) (seq 0 (length names)))).
+
+  (* the "ensure any column in the coercion map exists" block runs with colNames = nil: it never reports *)
+  Lemma coerce_check_nil m : coerce_check m [] = true.
+  Proof. unfold coerce_check. induction m as [|p m IH]; simpl; auto. Qed.
+
+  Lemma read_row_first conf names row :
+    read_row conf names ([], []) row
+    = do cols' <- scan_row (alloc_columns names conf) row; Ok (cols', names).
+  Proof.
+    unfold Sql.read_row.
+    replace (match q_coerce conf with Some m => coerce_check m [] | None => true end) with true
+      by (destruct (q_coerce conf); [now rewrite coerce_check_nil|reflexivity]).
+    reflexivity.
+  Qed.
+
+  Lemma read_row_steady conf names cols row :
+    length cols = length names ->
+    read_row conf names (cols, names) row = do cols' <- scan_row cols row; Ok (cols', names).
+  Proof.
+    intros Hlen. destruct cols as [|c cs]; [|reflexivity].
+    destruct names; [|discriminate]. apply read_row_first.
+  Qed.
+
+  Lemma read_rows_run2 conf names : forall rs k cols,
+    length cols = length names ->
+    read_rows conf names None k (cols, names) rs = do cs <- run_rows cols rs; Ok (cs, names).
+  Proof.
+    induction rs as [|r rs IH]; intros k cols Hlen; [reflexivity|].
+    rewrite read_rows_cons. rewrite read_row_steady by exact Hlen. cbn [SqlProofs.run_rows].
+    destruct (scan_row cols r) as [cols'| |] eqn:E; simpl; auto.
+    apply IH. rewrite (scan_row_length fixed pf _ _ _ E). exact Hlen.
+  Qed.
+
+  Lemma read_rows_first2 conf names r rs :
+    read_rows conf names None 0 ([], []) (r :: rs)
+    = do cs <- run_rows (alloc_columns names conf) (r :: rs); Ok (cs, names).
+  Proof.
+    rewrite read_rows_cons. rewrite read_row_first. cbn [SqlProofs.run_rows].
+    destruct (scan_row (alloc_columns names conf) r) as [cols'| |] eqn:E; simpl; auto.
+    apply read_rows_run2. rewrite (scan_row_length fixed pf _ _ _ E). unfold alloc_columns. now rewrite map_length.
+  Qed.
+
+  Lemma alloc_nth conf names j dc :
+    (j < length names)%nat ->
+    nth j (alloc_columns names conf) dc = new_column (q_precision conf) (co_of conf (nth j names [])).
+  Proof.
+    intros Hj. unfold alloc_columns.
+    rewrite nth_indep with (d' := new_column (q_precision conf) (co_of conf []))
+      by (now rewrite map_length).
+    unfold co_of.
+    exact (map_nth (fun name => new_column (q_precision conf)
+                                  (match q_coerce conf with Some m => coerce_lookup m name | None => None end))
+                   names [] j).
+  Qed.
+
+  (* from the final columns to the frame: the result map and qframe.New (any configuration) *)
+  Lemma read_sql_from_run conf names r rs finals ds dc :
+    NoDup names -> forallb check_name names = true ->
+    run_rows (alloc_columns names conf) (r :: rs) = Ok finals ->
+    length finals = length names -> length ds = length names ->
+    (forall j, (j < length names)%nat ->
+       col_data (nth j finals dc) = Some (nth j ds (CInt []))
+       /\ coldata_len (nth j ds (CInt [])) = length (r :: rs)) ->
+    read_sql conf (mkRS names (r :: rs)) no_faults = Ok (combine names ds).
+  Proof.
+    intros Hnd Hnames Hrun Hfinlen Hdslen Hfin.
+    unfold Sql.read_sql. cbn [sf_prepare sf_query sf_row no_faults]. unfold Sql.io_read_sql.
+    cbn [rs_names rs_rows].
+    rewrite read_rows_first2. rewrite Hrun. cbn [obind].
+    pose proof (result_map_spec finals names [] [] Hfinlen Hnd eq_refl) as Hrm. simpl in Hrm.
+    rewrite Hrm. cbn [obind].
+    assert (Hmap : map col_data finals = map Some ds).
+    { apply nth_ext with (d := col_data dc) (d' := Some (CInt [])).
+      - now rewrite !map_length, Hfinlen.
+      - intros j Hj. rewrite map_length, Hfinlen in Hj. rewrite !map_nth. now apply Hfin. }
+    rewrite Hmap.
+    unfold qframe_new.
+    set (data := combine names (map Some ds)).
+    assert (Hfst : map fst data = names) by (unfold data; apply fst_combine; now rewrite map_length).
+    assert (Hchk : forallb (fun p : bytes * option coldata => check_name (fst p)) data = true).
+    { apply forallb_forall. intros p Hpin. rewrite forallb_forall in Hnames. apply Hnames.
+      rewrite <- Hfst. now apply in_map. }
+    rewrite Hchk. cbn [negb].
+    assert (Hdlen : length data = length names).
+    { unfold data. rewrite combine_length, map_length, Hdslen. lia. }
+    rewrite Hdlen, Nat.eqb_refl. cbn [negb].
+    assert (Hget : forall n d, In (n, d) (combine names ds) -> map_get data n = Some (Some d)).
+    { intros n d Hin. apply map_get_in; [now rewrite Hfst|].
+      unfold data. now apply in_combine_map_some. }
+    assert (Hall : forallb (fun n => match map_get data n with Some _ => true | None => false end) names = true).
+    { apply forallb_forall. intros n Hn.
+      destruct (In_nth names n [] Hn) as (j & Hj & Hnth).
+      assert (Hin : In (n, nth j ds (CInt [])) (combine names ds)).
+      { rewrite <- Hnth. rewrite <- (combine_nth names ds j [] (CInt [])) by auto.
+        apply nth_In. rewrite combine_length, Hdslen. lia. }
+      now rewrite (Hget _ _ Hin). }
+    rewrite Hall. cbn [negb].
+    apply new_columns_spec with (L := length (r :: rs)); auto.
+    intros n d Hin. split; [now apply Hget|].
+    destruct (In_nth _ _ ([], CInt []) Hin) as (j & Hj & Hnth).
+    rewrite combine_length, Hdslen, Nat.min_id in Hj.
+    rewrite combine_nth in Hnth by auto. injection Hnth as Hn Hd. rewrite <- Hd.
+    now apply Hfin.
+  Qed.
+
+  (* C19_read_coerced: for EVERY configuration (any coercion map, any precision) *)
+  Lemma read_sql_gen_spec conf names rows cols :
+    spec_read_gen conf names rows = Some cols ->
+    read_sql conf (mkRS names rows) no_faults = Ok cols.
+  Proof.
+    unfold spec_read_gen.
+    destruct (negb (forallb (fun r => Nat.eqb (length r) (length names)) rows)) eqn:C1; [discriminate|].
+    destruct (negb (nodupb names && forallb check_name names)) eqn:C2; [discriminate|].
+    destruct (Nat.eqb (length rows) 0) eqn:C3; [discriminate|].
+    set (colspec := fun j =>
+           match prep (g_of conf (nth j names [])) fixed (q_precision conf) (column_vals rows j) with
+           | Some vals' => spec_column vals'
+           | None => None
+           end).
+    destruct (opt_all (map colspec (seq 0 (length names)))) as [ds|] eqn:C4; [|discriminate].
+    simpl. intros H; inversion H; subst cols; clear H.
+    apply negb_false_iff in C1. apply negb_false_iff in C2. apply andb_true_iff in C2 as [Hnd Hnames].
+    apply nodupb_NoDup in Hnd. apply Nat.eqb_neq in C3.
+    rewrite forallb_forall in C1.
+    assert (Hdslen : length ds = length names).
+    { apply opt_all_length in C4. now rewrite map_length, seq_length in C4. }
+    set (dc := new_column 0 None).
+    set (colj := fun j => new_column (q_precision conf) (co_of conf (nth j names []))).
+    set (fin := fun j => match scan_col (colj j) (column_vals rows j) with Ok c => c | _ => dc end).
+    set (finals := map fin (seq 0 (length names))).
+    assert (Hfin : forall j, (j < length names)%nat ->
+              scan_col (colj j) (column_vals rows j) = Ok (nth j finals dc)
+              /\ col_data (nth j finals dc) = Some (nth j ds (CInt []))
+              /\ coldata_len (nth j ds (CInt [])) = length rows).
+    { intros j Hj.
+      pose proof (opt_all_nth colspec 0%nat (CInt []) _ _ C4 j) as Hs.
+      rewrite seq_length in Hs. specialize (Hs Hj). rewrite seq_nth in Hs by lia. simpl in Hs.
+      unfold colspec in Hs.
+      destruct (prep (g_of conf (nth j names [])) fixed (q_precision conf) (column_vals rows j)) as [vals'|] eqn:Ep;
+        [|discriminate].
+      destruct (scan_col_prep_spec _ _ _ _ _ Ep Hs) as (c & Hc & Hd & Hl).
+      assert (Hn : nth j finals dc = c).
+      { subst finals. rewrite nth_map_seq by exact Hj. unfold fin, colj. now rewrite Hc. }
+      rewrite Hn. repeat split; auto.
+      rewrite Hl. unfold column_vals. now rewrite map_length. }
+    assert (Hfinlen : length finals = length names) by (subst finals; now rewrite map_length, seq_length).
+    assert (Halen : length (alloc_columns names conf) = length names)
+      by (unfold alloc_columns; now rewrite map_length).
+    assert (Hrun : run_rows (alloc_columns names conf) rows = Ok finals).
+    { apply run_rows_cols with (dc := dc).
+      - intros r Hr. rewrite Halen. apply Nat.eqb_eq. now apply C1.
+      - now rewrite Halen.
+      - rewrite Halen. intros j Hj. rewrite alloc_nth by exact Hj. now apply Hfin. }
+    destruct rows as [|r rs]; [simpl in C3; lia|].
+    apply read_sql_from_run with (finals := finals) (dc := dc); auto.
+    intros j Hj. destruct (Hfin j Hj) as (_ & H1 & H2). auto.
+  Qed.
 End Read2.
